@@ -25,8 +25,9 @@ from crosshair.core import suspected_proxy_intolerance_exception
 
 from .api import (Draws, HarnessError, LogTrap, Reached, Violation, install_logtrap, jsonable)
 
-from . import sx_stubs
+from . import sx_stubs, sx_bitops
 sx_stubs.install()
+sx_bitops.install()     # exact symbolic `a | b` (disjoint bits), `a & contiguous-mask`; range-checked bytes()
 _bad = sx_stubs.conformance()
 if _bad:
     raise HarnessError("inet stub disagrees with the C function on %r" % (_bad,))
